@@ -15,6 +15,8 @@ func RunnerSource(pkgName string, entries []string) string {
 	"fmt"
 	"reflect"
 	"sort"
+
+	vdisk "github.com/goose-lang/goose/machine/disk"
 )
 
 func vcanonType(t reflect.Type) any {
@@ -122,7 +124,8 @@ func vrun(name string, f any) {
 func RunAll() {
 `)
 	for _, e := range entries {
-		fmt.Fprintf(&sb, "\tvrun(%q, %s)\n", e, e)
+		// every entry starts on a fresh zeroed disk of 30 blocks (what the model's DiskBlocks is)
+		fmt.Fprintf(&sb, "\tvdisk.Init(vdisk.NewMemDisk(30))\n\tvrun(%q, %s)\n", e, e)
 	}
 	sb.WriteString("}\n")
 	return sb.String()
